@@ -188,20 +188,28 @@ class CCodeMapper(SimplifyingSortingStringifyMapper):
 
     def map_comparison(self, expr, enclosing_prec):
         from pymbolic.mapper.stringifier import PREC_COMPARISON
-        from pymbolic.primitives import Comparison
+        from pymbolic.primitives import (
+            BitwiseAnd,
+            BitwiseOr,
+            BitwiseXor,
+            Comparison,
+        )
 
         # An operand that is itself a comparison needs parentheses:
         # 'a != -2 >= b' is 'a != (-2 >= b)' in C, and 'a < b < c'
         # is '(a < b) < c' no matter how the tree is nested.
+        # So does a bitwise operand: unlike in Python, comparisons bind
+        # tighter than '&', '^' and '|' in C, 'a & b == c' is 'a & (b == c)'.
+        force_parens_around = (Comparison, BitwiseAnd, BitwiseOr, BitwiseXor)
         return self.parenthesize_if_needed(
                 self.format("%s %s %s",
                     self.rec_with_force_parens_around(
                         expr.left, PREC_COMPARISON,
-                        force_parens_around=(Comparison,)),
+                        force_parens_around=force_parens_around),
                     expr.operator,
                     self.rec_with_force_parens_around(
                         expr.right, PREC_COMPARISON,
-                        force_parens_around=(Comparison,))),
+                        force_parens_around=force_parens_around)),
                 enclosing_prec, PREC_COMPARISON)
 
     def map_logical_not(self, expr, enclosing_prec):
